@@ -312,6 +312,7 @@ func checkC02(c *Ctx) {
 
 	checkC02Multibyte(c)
 	checkC02AnyLength(c)
+	checkRound4Misc(c, "C02")
 	checkLineSetReplaces(c, "C02.set-replaces")
 	checkC02TrimAndQuote(c)
 	checkReturnedLine(c, "C02.returned-line")
@@ -679,6 +680,7 @@ func checkC04(c *Ctx) {
 	}
 
 	checkC04ZeroMove(c)
+	checkC04Round4(c)
 	checkC04SuggestedAgreement(c)
 
 	// ---- DisplayLine measures rows in columns (K7, explicit)
